@@ -853,6 +853,44 @@ class _Normaliser:
         return ast.For(target=g.target, iter=g.iter, body=body, orelse=[])
 
 
+def _desugar_local_map(f2: FuncNode) -> None:
+    """`def g(x): BODY; return V` ... `return list(map(g, XS))` / `v = [g(x) for x in XS]` at the top level of a function, g a local
+    single-parameter function with one trailing return used only there -> `acc = []; for x in XS: BODY; acc.append(V)` (loop fusion undone)."""
+    for g in [st for st in f2.body if isinstance(st, ast.FunctionDef)]:
+        if g.decorator_list or len(g.args.args) != 1 or g.args.vararg or g.args.kwarg or g.args.kwonlyargs or g.args.defaults or not g.body:
+            continue
+        rets = [n for st in g.body for n in walk_no_nested(st) if isinstance(n, ast.Return)]
+        if len(rets) != 1 or rets[0] is not g.body[-1] or rets[0].value is None:
+            continue
+        if any(isinstance(n, (ast.Yield, ast.YieldFrom, ast.Nonlocal, ast.Global)) for st in g.body for n in ast.walk(st)):
+            continue
+        uses = [n for st in f2.body if st is not g for n in ast.walk(st) if isinstance(n, ast.Name) and n.id == g.name]
+        if len(uses) != 1:
+            continue
+        for i, st in enumerate(f2.body):
+            v = getattr(st, 'value', None) if isinstance(st, (ast.Return, ast.Assign)) else None
+            xs = None
+            if isinstance(v, ast.Call) and isinstance(v.func, ast.Name) and v.func.id == 'list' and len(v.args) == 1 and not v.keywords and isinstance(v.args[0], ast.Call) \
+                    and isinstance(v.args[0].func, ast.Name) and v.args[0].func.id == 'map' and len(v.args[0].args) == 2 and v.args[0].args[0] is uses[0]:
+                xs = v.args[0].args[1]
+            elif isinstance(v, ast.ListComp) and len(v.generators) == 1 and not v.generators[0].ifs and isinstance(v.generators[0].target, ast.Name) \
+                    and isinstance(v.elt, ast.Call) and v.elt.func is uses[0] and len(v.elt.args) == 1 and not v.elt.keywords \
+                    and isinstance(v.elt.args[0], ast.Name) and v.elt.args[0].id == v.generators[0].target.id:
+                xs = v.generators[0].iter
+            if xs is None:
+                continue
+            acc = f'acc__m{i}'
+            loop = ast.For(target=ast.Name(id=g.args.args[0].arg, ctx=ast.Store()), iter=xs,
+                           body=g.body[:-1] + [ast.Expr(value=ast.Call(func=ast.Attribute(value=ast.Name(id=acc, ctx=ast.Load()), attr='append', ctx=ast.Load()),
+                                                                        args=[rets[0].value], keywords=[]))], orelse=[])
+            init = ast.Assign(targets=[ast.Name(id=acc, ctx=ast.Store())], value=ast.List(elts=[], ctx=ast.Load()))
+            tail: ast.stmt = ast.Return(value=ast.Name(id=acc, ctx=ast.Load())) if isinstance(st, ast.Return) else ast.Assign(targets=st.targets, value=ast.Name(id=acc, ctx=ast.Load()))
+            new = [ast.copy_location(n_, st) for n_ in (init, loop, tail)]
+            f2.body = [b for b in f2.body[:i] if b is not g] + new + [b for b in f2.body[i + 1:] if b is not g]
+            ast.fix_missing_locations(f2)
+            break
+
+
 def normal_func(mod: Module, q: str, resolve_method: T.Optional[T.Callable[[str], T.Optional[FuncNode]]] = None, fn: T.Optional[FuncNode] = None,
                 inline: int = 2) -> FuncNode:
     """Normal form of the function `q` of `mod` (cached on the Module object)."""
@@ -867,6 +905,7 @@ def normal_func(mod: Module, q: str, resolve_method: T.Optional[T.Callable[[str]
     raw = fn if fn is not None else mod.func(q)
     f2 = _copy.deepcopy(raw)
     _expand_partials(f2)
+    _desugar_local_map(f2)
     cls = q.rsplit('.', 1)[0] if '.' in q else None
     nz = _Normaliser(mod, cls, resolve_method)
     nz.stack.append(q if '.' not in q else q)
